@@ -69,7 +69,17 @@ def run(ctx):
     if rc != 0:
         raise vlib.Inconclusive("replaycache seq driver failed: %s" % err[-2000:])
     rc_common.validate(ctx, tf, "seq: TLC behaviours on the real cache")
-    ctx.cov["evaluations"] += len(behs)
+    # 2b. the same behaviours with every Add presented as a real handshake to the stream authenticator that shares the cache
+    tfa = os.path.join(ctx.scratch, "authseq.ndjson")
+    rc, out, err = vlib.run([drv, "authseq", "-in", bf, "-out", tfa, "-seed", str(ctx.seed + 3)], env=env)
+    if rc != 0:
+        # the driver stops when the authenticator answers a valid handshake with anything but OK / ERR_REPLAY_CLIENT
+        raise vlib.Inconclusive("replaycache authseq driver failed: %s" % err[-2000:])
+    rc_common.validate(ctx, tfa, "authseq: TLC behaviours through NewShadowsocksStreamAuthenticator (cache resized under it)")
+    ctx.cov["behaviours_through_the_authenticator"] = len(behs)
+    ctx.cov["behaviours_resizing_from_zero"] = sum(1 for b in behs if b and b[0].get("a") == "New" and b[0].get("n") == 0
+                                                   and any(o.get("a") == "Resize" and o.get("n", 0) > 0 for o in b))
+    ctx.cov["evaluations"] += 2 * len(behs)
     nontriv = sum(1 for b in behs if any(o.get("obl") for o in b))
     ctx.cov["distinct_nontrivial"] += nontriv
     ctx.sample({"behaviour": behs[0]})
